@@ -33,6 +33,11 @@ COLOR = 'chess::board::color::Color'
 RANK = {i: 0xff << (8 * (i - 1)) for i in range(1, 9)}
 
 
+def sq_names(mask):
+    """names of all squares of a constant bitboard"""
+    return {sq_name(1 << i) for i in range(64) if isinstance(mask, int) and (mask >> i) & 1}
+
+
 def cdiscr(facts):
     return {c: facts.variant_discr(COLOR, c) for c in ('White', 'Black')}
 
@@ -244,7 +249,7 @@ def r3_castle_guards(ctx):
                     if att is not None and att in (x, y):
                         rest = y if x == att else x
                         if is_const(rest):
-                            atoms['safe'].add(sq_name(rest[1]))
+                            atoms['safe'] |= sq_names(rest[1])
                             continue
                         sidef = [s[2] for s in subterms(rest) if s[0] == 'fld' and s[2] in ('white', 'black')]
                         idx = [s[2] for s in subterms(rest) if s[0] == 'idx']
@@ -253,13 +258,13 @@ def r3_castle_guards(ctx):
                             continue
                     if kk and other:
                         if other[0] in (union, ('bin', 'BitOr', bocc, wocc)):
-                            atoms['empty_union'].add(sq_name(kk[0]))
+                            atoms['empty_union'] |= sq_names(kk[0])
                             continue
                         if other[0] == wocc:
-                            atoms['empty_w'].add(sq_name(kk[0]))
+                            atoms['empty_w'] |= sq_names(kk[0])
                             continue
                         if other[0] == bocc:
-                            atoms['empty_b'].add(sq_name(kk[0]))
+                            atoms['empty_b'] |= sq_names(kk[0])
                             continue
                 if a[0] == 'discr' and has_call(a, '::last') and v == 1:
                     continue            # peek() on a non-empty stack
@@ -596,10 +601,18 @@ def r4b_pawn_captures(ctx):
                   max_paths=4000).run(name)
     ctx.touch(name)
     caps = None
+    clo = None
     for o in outs:
         for e in o.events:
-            if e[0] == 'closure' and e[1] == name + '::{closure#0}':
+            if e[0] == 'call' and e[1].endswith('Iterator>::for_each') and e[2][1][0] == 'agg' and e[2][1][1] == 'closure':
+                clo = e[2][1][2]
+    for o in outs:
+        for e in o.events:
+            if e[0] == 'closure' and e[1] == clo:
                 caps = e[2]
+    if clo is None:
+        ctx.anchor_missing(rule, name, 'capture-filter closure (for_each over the attack targets) not found')
+        return
     ok_mask = False
     detail = None
     if caps:
@@ -608,7 +621,6 @@ def r4b_pawn_captures(ctx):
         ok_mask = any('occupied' in x and 'pieces' in x and 'opposite(arg3)' in x for x in s)
     ctx.ob(rule, name, 'capture mask = occupancy of the opponent (color.opposite())', ok_mask, found=detail, expected='board.pieces(color.opposite()).occupied()',
            why='masking with the own occupancy would let pawns capture their own pieces and never the enemy\'s')
-    clo = name + '::{closure#0}'
     couts = Engine(facts).run(clo)
     ctx.touch(clo)
     ok = False
@@ -671,6 +683,44 @@ def r7_promotions(ctx):
                     src = show(f['promote_to_piece'])
                     okp = 'from_square' in show(f['from_square']) and 'to_square' in show(f['to_square']) and 'captures' in show(f['captures']) and \
                         ('PAWN_PROMOTIONS' in src or 'next' in src)
+    # every standard pawn move that reaches the caller's list went through the last-rank split
+    appended = set()
+    for o in outs:
+        if o.kind != 'return':
+            continue
+        for e in o.events:
+            if e[0] == 'call' and (e[1].endswith('::append') or e[1].endswith('::extend') or e[1].endswith('::push')) and e[2][0] == ('ref', ('der', ('p', 1))):
+                if e[1].endswith('::push'):
+                    mv = e[2][1]
+                    appended.add('push:' + (mv[3] if mv[0] == 'agg' else '?'))
+                else:
+                    src = e[2][1]
+                    srcs = show(src)
+                    part = [s for s in subterms(src) if s[0] == 'call' and s[1].endswith('Iterator::partition')]
+                    if part and (srcs.rstrip(')').endswith('.0') or '.0)' in srcs[-6:] or srcs.endswith('.0')):
+                        appended.add('append:partition.0')
+                    elif src[0] == 'ref' and src[1][0] == 'L':
+                        appended.add('append:local')
+                    else:
+                        appended.add('append:' + srcs[:60])
+    # the engine snapshots only shared refs; `append(&mut standard_pawn_moves)` shows as a local: resolve through the partition destructuring
+    fn = facts.need_fn(name)
+    n_append = sum(1 for b, t_ in fn.calls() if (facts.callee_name(t_) or '').endswith('SmallVec::<A>::append'))
+    n_partition = sum(1 for b, t_ in fn.calls() if (facts.callee_name(t_) or '').endswith('Iterator::partition'))
+    # every return path that appends pawn moves must have performed the split
+    unsplit = 0
+    for o in outs:
+        if o.kind != 'return':
+            continue
+        evs = [e[1] for e in o.events if e[0] == 'call']
+        has_append = any(x.endswith('SmallVec::<A>::append') for x in evs)
+        has_part = any(x.endswith('Iterator::partition') for x in evs)
+        if has_append and not has_part:
+            unsplit += 1
+    ctx.ob(rule, name, 'no pawn move reaches the list without passing the last-rank split', unsplit == 0 and n_partition == 1 and n_append == 1,
+           found={'return paths appending without the split': unsplit, 'append sites': n_append, 'partition sites': n_partition},
+           expected='partition by promotion rank on every path; one append of the non-promoting part',
+           why='a pawn move onto the last rank that is emitted as an ordinary move leaves a pawn on the first/eighth rank')
     iters = False
     for o in outs:
         for e in o.events:
